@@ -38,7 +38,13 @@ pub fn judge(src: &str, family: &str, budgets: &[usize], l: &mut Local) {
     let mut outcomes = vec![];
     for b in budgets {
         l.eval();
+        let _ = run::take_pass_trace();
         let obs = run::assemble_str(src, &Opts::iters(*b));
+        // hook H2: real passes executed and the states they reached (coverage only)
+        for (_, _, _, _, digest) in run::take_pass_trace() {
+            l.state(&(src, digest));
+            l.transitions += 1;
+        }
         let mut bad: Option<(String, String)> = None;
         if let Some(p) = &obs.panicked {
             bad = Some((if src.contains("asm {") { "C09:panic-asm-block-small-budget".into() } else { "C09:panic".into() }, format!("panic at budget {}: {}", b, p)));
@@ -46,7 +52,6 @@ pub fn judge(src: &str, family: &str, budgets: &[usize], l: &mut Local) {
         } else if obs.success() {
             outcomes.push("ok");
             let it = obs.iterations.unwrap_or(0);
-            l.transitions += it as u64;
             if it > *b {
                 bad = Some(("C09:passes-exceed-budget".into(), format!("reports {} passes with a budget of {}", it, b)));
             }
@@ -60,7 +65,6 @@ pub fn judge(src: &str, family: &str, budgets: &[usize], l: &mut Local) {
             }
         } else if obs.failure() {
             outcomes.push("fail");
-            l.transitions += *b as u64;
             if let Some((n, _, _)) = &first_success {
                 bad = Some(("C09:success-lost-at-larger-budget".into(), format!("assembles at budget {} but not at budget {}", n, b)));
             }
@@ -80,14 +84,13 @@ pub fn judge(src: &str, family: &str, budgets: &[usize], l: &mut Local) {
     } else {
         l.class(&format!("always-{}", outcomes[0]));
     }
-    l.state(&(src, &outcomes));
     l.sample(|| json!({"family": family, "program": src, "outcomes": outcomes}));
 }
 
 pub fn run(ctx: &Ctx) -> Report {
     let mut rep = Report::new(
         "model_checking",
-        "every program of the twelve C02 value-dependent families (all item sequences up to a length), the skeleton grid (chains 0..12 with/without oscillator), asm-block macros with local labels and #assert programs, each assembled under a row of budgets; success at N must recur identically (bits, symbols) at every larger budget, reported passes <= budget, failures clean. Non-trivial = program whose outcome differs between at least two budgets; states = distinct (program, outcome row), transitions = passes executed.",
+        "every program of the twelve C02 value-dependent families (all item sequences up to a length), the skeleton grid (chains 0..12 with/without oscillator), asm-block macros with local labels and #assert programs, each assembled under a row of budgets; success at N must recur identically (bits, symbols) at every larger budget, reported passes <= budget, failures clean. Non-trivial = program whose outcome differs between at least two budgets; states = distinct (program, per-pass state digest) pairs read through hook H2, transitions = resolver passes executed.",
     );
     let budgets: Vec<usize> = if ctx.thorough { vec![1, 2, 3, 4, 5, 6, 7, 8, 9, 10, 11, 12, 20, 30, 31] } else { vec![1, 2, 3, 4, 5, 10, 11, 30] };
     for f in c02::families() {
